@@ -75,10 +75,16 @@ func newCmd_MergeCars() *cli.Command {
 					return fmt.Errorf("failed to discard header: %w", err)
 				}
 
-				io.Copy(w, r)
+				if _, err := io.Copy(w, r); err != nil {
+					return fmt.Errorf("failed to copy input file %s: %w", path, err)
+				}
 
 			}
 
+			// what is still in the buffer belongs to the output too
+			if err := w.Flush(); err != nil {
+				return fmt.Errorf("failed to write output file: %w", err)
+			}
 			return nil
 		},
 	}
